@@ -124,11 +124,8 @@ theorem exec_inv (fuel : Nat) (c : Core) (sp : List Pc) (k : Kont) (h : CoreInv 
   case case5 c' e hd => exact h.shrink (shrink_drainLoop' hd)
   case case6 c' e hd ih =>
     exact ih (h.shrink ((shrink_drainLoop' hd).trans (shrink_requeue _ _))) trivial
-  case case7 w hw c1 exc hd ih =>
-    refine ih (h.shrink (shrink_closeConn _ _)) ?_
-    exact closeConn_notLive _ _
-  case case8 => exact h.shrink (shrink_closeConn _ _)
-  case case10 =>
+  case case7 => exact h.shrink (shrink_closeConn _ _)
+  case case9 =>
     refine ⟨?_, rfl, fun _ => rfl⟩
     intro i hi
     have hi' : liveAt _ i := hi
@@ -170,9 +167,8 @@ theorem exec_frame (fuel : Nat) (c : Core) (sp : List Pc) (k : Kont) : Frame c (
   case case4 c' hd ih => exact (shrink_drainLoop' hd).frame.trans ih
   case case5 c' e hd => exact (shrink_drainLoop' hd).frame
   case case6 c' e hd ih => exact ((shrink_drainLoop' hd).trans (shrink_requeue _ _)).frame.trans ih
-  case case7 ih => exact (shrink_closeConn _ _).frame.trans ih
-  case case8 => exact (shrink_closeConn _ _).frame
-  case case10 => exact ⟨rfl, rfl, rfl, rfl, fun _ h => h, .inr rfl, .inr rfl⟩
+  case case7 => exact (shrink_closeConn _ _).frame
+  case case9 => exact ⟨rfl, rfl, rfl, rfl, fun _ h => h, .inr rfl, .inr rfl⟩
   all_goals first | exact Frame.refl _ | exact (shrink_emit _ _).frame | (rename_i ih; exact ih)
 
 /-- program counters at which `exec` can leave a task -/
@@ -304,7 +300,6 @@ theorem exec_api (fuel : Nat) (c : Core) (sp : List Pc) (k : Kont) (hk : kApi k 
   case case4 c' hd ih => have := (shrink_drainLoop' hd).isOpen; grind [apiPc, kApi, apiRet, closeRet]
   case case6 c' e hd ih =>
     have := ((shrink_drainLoop' hd).trans (shrink_requeue c' e)).isOpen; grind [apiPc, kApi, apiRet, closeRet]
-  case case7 fuel c sp r w _ c1 _ _ ih => have := (shrink_closeConn c w).isOpen; grind [apiPc, kApi, apiRet, closeRet]
   all_goals grind [apiPc, kApi, apiRet, closeRet]
 
 theorem exec_noClose (fuel : Nat) (c : Core) (sp : List Pc) (k : Kont) (hk : kClose k = false) :
@@ -1029,10 +1024,9 @@ theorem ctr_exec (fuel : Nat) (c : Core) (sp : List Pc) (k : Kont) (h : CTr c) :
   case case4 c' hd ih => exact ih (ctr_drainLoop' h hd)
   case case5 c' e hd => exact ctr_drainLoop' h hd
   case case6 c' e hd ih => exact ih (ctr_requeue (ctr_drainLoop' h hd) e)
-  case case7 ih => exact ih (ctr_closeConn h _)
-  case case8 => exact ctr_closeConn h _
-  case case10 => exact TrInv.neutral h (e := .notify false _) rfl
-  case case13 => exact h.emit rfl
+  case case7 => exact ctr_closeConn h _
+  case case9 => exact TrInv.neutral h (e := .notify false _) rfl
+  case case12 => exact h.emit rfl
   all_goals first | exact h | (rename_i ih; exact ih h)
 
 
@@ -1295,21 +1289,16 @@ theorem exec_close (fuel : Nat) (c : Core) (sp : List Pc) (k : Kont) (hok : kClo
     have h1 := (sameFlags_drainLoop' hd).trans (sameFlags_requeue c' e)
     have := h1.closing; have := h1.closedNow
     grind [kClose, CloseOk, closeRet]
-  case case7 fuel c sp r w hw c1 exc hd ih =>
+  case case7 fuel c sp r w hw =>
     have h1 := sameFlags_closeConn c w
     have h2 := (shrink_closeConn c w).rw
     have := h1.closing; have := h1.closedNow
     grind [kClose, CloseOk, closeRet]
-  case case8 fuel c sp r w hw c1 hd =>
-    have h1 := sameFlags_closeConn c w
-    have h2 := (shrink_closeConn c w).rw
-    have := h1.closing; have := h1.closedNow
-    grind [kClose, CloseOk, closeRet]
-  case case10 fuel c sp r =>
+  case case9 fuel c sp r =>
     have h1 := sameFlags_emit { c with isConnected := false, rw := none } (e := .notify false c.now) rfl
     have := h1.closing; have := h1.closedNow
     grind [kClose, CloseOk, closeRet, Core.emit]
-  case case13 n c sp =>
+  case case12 n c sp =>
     have h1 := closing_concat c.trace (.apiCloseDone c.now)
     have h2 := closedNow_concat c.trace (.apiCloseDone c.now)
     grind [kClose, CloseOk, closeRet, Core.emit]
@@ -2062,18 +2051,17 @@ theorem exec_closed (fuel : Nat) (c : Core) (sp : List Pc) (k : Kont) (hconn : c
   case case4 h _ _ _ _ _ => simp [hconn] at h
   case case5 h _ _ _ _ _ => simp [hconn] at h
   case case6 h _ _ _ _ _ _ => simp [hconn] at h
-  case case7 hw _ _ _ _ => rw [hrw] at hw; cases hw
-  case case8 hw _ _ => rw [hrw] at hw; cases hw
-  case case9 ih => exact ih hconn hrw
-  case case10 => exact ⟨rfl, rfl, rfl, rfl, [_], rfl, by simp [quietEv]⟩
-  case case11 ih => exact ih hconn hrw
-  case case12 => exact ⟨hconn, hrw, rfl, rfl, QuietExt.refl _⟩
-  case case13 => exact ⟨hconn, hrw, rfl, rfl, quietExt_emit _ rfl⟩
-  case case14 ih => exact ih hconn hrw
-  case case15 => exact ⟨hconn, hrw, rfl, rfl, QuietExt.refl _⟩
-  case case16 ih => exact ih hconn hrw
-  case case17 hw => rw [hrw] at hw; cases hw
-  case case18 => exact ⟨hconn, hrw, rfl, rfl, QuietExt.refl _⟩
+  case case7 hw => rw [hrw] at hw; cases hw
+  case case8 ih => exact ih hconn hrw
+  case case9 => exact ⟨rfl, rfl, rfl, rfl, [_], rfl, by simp [quietEv]⟩
+  case case10 ih => exact ih hconn hrw
+  case case11 => exact ⟨hconn, hrw, rfl, rfl, QuietExt.refl _⟩
+  case case12 => exact ⟨hconn, hrw, rfl, rfl, quietExt_emit _ rfl⟩
+  case case13 ih => exact ih hconn hrw
+  case case14 => exact ⟨hconn, hrw, rfl, rfl, QuietExt.refl _⟩
+  case case15 ih => exact ih hconn hrw
+  case case16 hw => rw [hrw] at hw; cases hw
+  case case17 => exact ⟨hconn, hrw, rfl, rfl, QuietExt.refl _⟩
 
 
 theorem closedState_upd {s : Sys} {t : Nat} {k0 : Task} {out : Out} (hcs : ClosedState s)
@@ -2386,11 +2374,10 @@ theorem c15_exec (fuel : Nat) (c : Core) (sp : List Pc) (k : Kont) (h : MonOpen 
   case case4 c' hd ih => exact ih (monOpen_drainLoop' h hd)
   case case5 c' e hd => exact (monOpen_drainLoop' h hd).ok
   case case6 c' e hd ih => exact ih (monOpen_requeue (monOpen_drainLoop' h hd) e)
-  case case7 ih => exact ih (monOpen_closeConn h _)
-  case case8 => exact (monOpen_closeConn h _).ok
-  case case10 fuel c sp r =>
+  case case7 => exact (monOpen_closeConn h _).ok
+  case case9 fuel c sp r =>
     exact c15_emit_open (h.of_trace_eq (c' := { c with isConnected := false, rw := none }) rfl) _
-  case case13 => exact c15_emit_open h _
+  case case12 => exact c15_emit_open h _
   all_goals first | exact h.ok | (rename_i ih; exact ih h)
 
 theorem c15_quietExt {c c' : Core} (h : c15 c.trace = true) (hq : QuietExt c c') : c15 c'.trace = true := by
